@@ -413,7 +413,10 @@ typedef struct { char name[64]; int nc; ccfg_t cc[MAXCL]; int initk[2][3], ninit
 static long T0;
 static vf_rng XR;       /* executor's own stream: values only (random secrets, foreign ids) */
 
-static mx_cfg cfg_of(const ccfg_t *c) { mx_cfg m; memset(&m, 0, sizeof m); m.ver = c->ver; m.suite = c->suite; m.useTicket = c->tkt; m.ems = c->ems; return m; }
+static mx_cfg cfg_of(const ccfg_t *c) { mx_cfg m; memset(&m, 0, sizeof m); m.ver = c->ver; m.suite = c->suite; m.useTicket = c->tkt; m.ems = c->ems;
+    /* a TLS server enables every TLS version (the client fixes the one that is negotiated): version checks on credentials must not rely on the server being single-version */
+    if (!MX_IS_DTLS(c->ver)) m.srvVerMask = (1 << MX_TLS11) | (1 << MX_TLS12) | (1 << MX_TLS13);
+    return m; }
 static uint64_t sid_keyd(sslSessionId_t *sid) { if (!sid) return 0; if (sid->psk && sid->psk->pskKey) return dig(sid->psk->pskKey, sid->psk->pskLen); return dig(sid->masterSecret, 48); }
 static int live_of(int c) { for (int i = 0; i < MAXLIVE; i++) if (LV[i].k && LV[i].owner == c) return i; return -1; }
 static int sibling_live(const ev_t *e) { if (e->boundSidn != 32) return 0; for (int i = 0; i < MAXLIVE; i++) if (LV[i].k && LV[i].k->s.ssl && LV[i].k->s.ssl->sessionIdLen == 32 && !memcmp(LV[i].k->s.ssl->sessionId, e->boundSid, 32)) return 1; return 0; }
